@@ -163,3 +163,259 @@ Proof.
   destruct (zuc_encrypt k s0 (firstn (k * 4) x)) as [s1 o1]. cbn [fst snd].
   destruct (zuc_encrypt 1 s1 (skipn (k * 4) x)) as [s2 o2]. reflexivity.
 Qed.
+
+(* ---------- 128-EIA3 style MAC: update is a monoid action; finish over chunks = finish over the whole ---------- *)
+Definition set_buf (c : zmac_ctx) (b : list N) : zmac_ctx := mkZm (zm_s c) (zm_T c) (zm_K0 c) b.
+
+Lemma mac_word_buf c M n b : mac_word (set_buf c b) M n = set_buf (mac_word c M n) b.
+Proof.
+  unfold mac_word, set_buf. cbn [zm_s zm_T zm_K0 zm_buf].
+  destruct (zuc_keyword (zm_s c)) as [s k1]. destruct (mac_bits n M (zm_T c) (zm_K0 c) k1) as [[T K0] K1].
+  reflexivity.
+Qed.
+
+Lemma mac_words_fuel : forall f1 f2 c d, length d < 4 * (f1 + 1) -> length d < 4 * (f2 + 1) ->
+  mac_words f1 c d = mac_words f2 c d.
+Proof.
+  induction f1 as [|f1 IH]; intros f2 c d H1 H2.
+  - destruct f2; [reflexivity|]. cbn [mac_words].
+    replace (4 <=? length d) with false by (symmetry; apply Nat.leb_gt; lia). reflexivity.
+  - cbn [mac_words]. destruct (4 <=? length d) eqn:E4.
+    + apply Nat.leb_le in E4. destruct f2 as [|f2]; [lia|]. cbn [mac_words].
+      replace (4 <=? length d) with true by (symmetry; apply Nat.leb_le; lia).
+      apply IH; rewrite skipn_length; lia.
+    + apply Nat.leb_gt in E4. destruct f2; [reflexivity|]. cbn [mac_words].
+      replace (4 <=? length d) with false by (symmetry; apply Nat.leb_gt; lia). reflexivity.
+Qed.
+
+(* words of a prefix are consumed first *)
+Lemma mac_words_prefix : forall k c x y, length x / 4 = k ->
+  let '(c', rest) := mac_words (length x) c x in
+  length rest < 4 /\ mac_words (length (x ++ y)) c (x ++ y) = mac_words (length (rest ++ y)) c' (rest ++ y).
+Proof.
+  induction k as [|k IH]; intros c x y Hk.
+  - assert (Hx : length x < 4) by (apply Nat.div_small_iff in Hk; lia).
+    rewrite (mac_words_fuel (length x) 0) by lia. cbn [mac_words]. split; [exact Hx|reflexivity].
+  - assert (Hx : 4 <= length x).
+    { destruct (Nat.lt_ge_cases (length x) 4) as [Hlt|]; [|assumption]. rewrite Nat.div_small in Hk by assumption. discriminate. }
+    set (c1 := mac_word c (get_be32 x) 32). set (x1 := skipn 4 x).
+    assert (Hx1 : length x1 = length x - 4) by (unfold x1; apply skipn_length).
+    assert (Hk1 : length x1 / 4 = k).
+    { rewrite Hx1. replace (length x) with (1 * 4 + (length x - 4)) in Hk by lia.
+      rewrite Nat.div_add_l in Hk by lia. lia. }
+    specialize (IH c1 x1 y Hk1).
+    rewrite (mac_words_fuel (length x) (S (length x1)) c x) by lia.
+    cbn [mac_words]. replace (4 <=? length x) with true by (symmetry; apply Nat.leb_le; lia).
+    fold c1. fold x1.
+    destruct (mac_words (length x1) c1 x1) as [c' rest]. destruct IH as [Hr IH]. split; [exact Hr|].
+    rewrite <- IH.
+    assert (Hs : skipn 4 (x ++ y) = x1 ++ y).
+    { unfold x1. rewrite skipn_app. replace (4 - length x) with 0 by lia. reflexivity. }
+    rewrite (mac_words_fuel (length (x ++ y)) (S (length (x1 ++ y))) c (x ++ y)) by (rewrite !app_length; lia).
+    cbn [mac_words].
+    replace (4 <=? length (x ++ y)) with true by (symmetry; apply Nat.leb_le; rewrite app_length; lia).
+    assert (Hg : get_be32 (x ++ y) = get_be32 x).
+    { destruct x as [|a [|b [|c0 [|d0 x']]]]; cbn in Hx; try lia. reflexivity. }
+    rewrite Hg, Hs. reflexivity.
+Qed.
+
+(* the context after absorbing x from a context with an empty buffer *)
+Definition zm_of (c0 : zmac_ctx) (x : list N) : zmac_ctx :=
+  let '(c', rest) := mac_words (length x) c0 x in set_buf c' rest.
+
+Lemma zm_of_buf c0 x : length (zm_buf (zm_of c0 x)) < 4.
+Proof.
+  unfold zm_of. pose proof (mac_words_prefix (length x / 4) c0 x [] eq_refl) as H.
+  destruct (mac_words (length x) c0 x) as [c' rest]. destruct H as [H _]. exact H.
+Qed.
+
+Lemma mac_words_set_buf : forall f c b d, mac_words f (set_buf c b) d =
+  let '(c', r) := mac_words f c d in (set_buf c' b, r).
+Proof.
+  induction f as [|f IH]; intros c b d; cbn [mac_words]; [reflexivity|].
+  destruct (4 <=? length d); [|reflexivity]. rewrite mac_word_buf. apply IH.
+Qed.
+
+Lemma zuc_mac_update_of c0 x d : zm_buf c0 = [] ->
+  zuc_mac_update (zm_of c0 x) d = zm_of c0 (x ++ d).
+Proof.
+  intros Hb0. destruct d as [|d0 d'].
+  - cbn [zuc_mac_update]. rewrite app_nil_r. reflexivity.
+  - set (d := d0 :: d'). unfold zuc_mac_update. fold d.
+    pose proof (mac_words_prefix (length x / 4) c0 x d eq_refl) as H.
+    unfold zm_of. destruct (mac_words (length x) c0 x) as [c' rest]. destruct H as [Hr H].
+    cbn [zm_buf set_buf zm_s zm_T zm_K0]. rewrite H.
+    rewrite mac_words_set_buf.
+    destruct (mac_words (length (rest ++ d)) c' (rest ++ d)) as [c2 r2].
+    unfold set_buf. cbn [zm_s zm_T zm_K0]. reflexivity.
+Qed.
+
+Lemma zm_of_nil c0 : zm_buf c0 = [] -> zm_of c0 [] = c0.
+Proof. intros H. unfold zm_of. cbn. unfold set_buf. destruct c0. cbn in *. subst. reflexivity. Qed.
+
+Lemma zuc_mac_updates_of c0 chunks : zm_buf c0 = [] -> forall x,
+  fold_left zuc_mac_update chunks (zm_of c0 x) = zm_of c0 (x ++ concat chunks).
+Proof.
+  intros Hb. induction chunks as [|d r IH]; intros x; cbn [fold_left concat]; [rewrite app_nil_r; reflexivity|].
+  rewrite zuc_mac_update_of by exact Hb. rewrite IH, app_assoc. reflexivity.
+Qed.
+
+(* ---- zuc_mac_stream: update over any chunking then finish(tail, nbits)
+        = finish over the whole message with the whole bit length ---- *)
+Theorem zuc_mac_stream key iv chunks tail nbits :
+  zuc_mac_finish (fold_left zuc_mac_update chunks (zuc_mac_init key iv)) tail nbits =
+  zuc_mac_finish (zuc_mac_init key iv) (concat chunks ++ tail) (8 * length (concat chunks) + nbits).
+Proof.
+  set (c0 := zuc_mac_init key iv).
+  assert (Hb : zm_buf c0 = []).
+  { unfold c0, zuc_mac_init. destruct (zuc_keyword (zuc_init key iv)). reflexivity. }
+  clearbody c0. set (x := concat chunks).
+  rewrite <- (zm_of_nil c0 Hb) at 1. rewrite zuc_mac_updates_of by exact Hb. cbn [app]. fold x.
+  unfold zuc_mac_finish.
+  replace ((8 * length x + nbits) / 8) with (length x + nbits / 8) by lia.
+  replace ((8 * length x + nbits) mod 8) with (nbits mod 8) by lia.
+  rewrite firstn_app, skipn_app.
+  rewrite (firstn_all2 x) by lia. rewrite (skipn_all2 x) by lia.
+  replace (length x + nbits / 8 - length x) with (nbits / 8) by lia. cbn [app].
+  assert (Hu0 : forall z, zuc_mac_update c0 z = zm_of c0 z).
+  { intros z. pose proof (zuc_mac_update_of c0 [] z Hb) as H. rewrite (zm_of_nil c0 Hb) in H. exact H. }
+  assert (Hc : (if 8 <=? nbits then zuc_mac_update (zm_of c0 x) (firstn (nbits / 8) tail) else zm_of c0 x) =
+               (if 8 <=? 8 * length x + nbits then zuc_mac_update c0 (x ++ firstn (nbits / 8) tail) else c0)).
+  { destruct (8 <=? nbits) eqn:E8.
+    - apply Nat.leb_le in E8. replace (8 <=? 8 * length x + nbits) with true by (symmetry; apply Nat.leb_le; lia).
+      rewrite zuc_mac_update_of by exact Hb. rewrite Hu0. reflexivity.
+    - apply Nat.leb_gt in E8. replace (nbits / 8) with 0 by (symmetry; apply Nat.div_small; lia).
+      rewrite firstn_O, app_nil_r.
+      destruct (8 <=? 8 * length x + nbits) eqn:E9.
+      + rewrite Hu0. reflexivity.
+      + apply Nat.leb_gt in E9. assert (length x = 0) by lia. destruct x; [apply zm_of_nil, Hb|discriminate]. }
+  rewrite Hc. reflexivity.
+Qed.
+
+(* ---------- ZUC-256 MAC (32/64/128-bit tags): update is a monoid action; finish over chunks = finish over the whole ---------- *)
+Definition set_buf6 (c : z256mac_ctx) (b : list N) : z256mac_ctx := mkZ6 (z6_s c) (z6_T c) (z6_K0 c) b (z6_n c).
+
+Lemma mac256_word_buf c M n b : mac256_word (set_buf6 c b) M n = set_buf6 (mac256_word c M n) b.
+Proof.
+  unfold mac256_word, set_buf6. cbn [z6_s z6_T z6_K0 z6_buf z6_n].
+  destruct (zuc_keyword (z6_s c)) as [s k1]. destruct (mac256_bits n M (z6_T c) (z6_K0 c) k1) as [T K0].
+  reflexivity.
+Qed.
+
+Lemma mac256_words_fuel : forall f1 f2 c d, length d < 4 * (f1 + 1) -> length d < 4 * (f2 + 1) ->
+  mac256_words f1 c d = mac256_words f2 c d.
+Proof.
+  induction f1 as [|f1 IH]; intros f2 c d H1 H2.
+  - destruct f2; [reflexivity|]. cbn [mac256_words].
+    replace (4 <=? length d) with false by (symmetry; apply Nat.leb_gt; lia). reflexivity.
+  - cbn [mac256_words]. destruct (4 <=? length d) eqn:E4.
+    + apply Nat.leb_le in E4. destruct f2 as [|f2]; [lia|]. cbn [mac256_words].
+      replace (4 <=? length d) with true by (symmetry; apply Nat.leb_le; lia).
+      apply IH; rewrite skipn_length; lia.
+    + apply Nat.leb_gt in E4. destruct f2; [reflexivity|]. cbn [mac256_words].
+      replace (4 <=? length d) with false by (symmetry; apply Nat.leb_gt; lia). reflexivity.
+Qed.
+
+(* words of a prefix are consumed first *)
+Lemma mac256_words_prefix : forall k c x y, length x / 4 = k ->
+  let '(c', rest) := mac256_words (length x) c x in
+  length rest < 4 /\ mac256_words (length (x ++ y)) c (x ++ y) = mac256_words (length (rest ++ y)) c' (rest ++ y).
+Proof.
+  induction k as [|k IH]; intros c x y Hk.
+  - assert (Hx : length x < 4) by (apply Nat.div_small_iff in Hk; lia).
+    rewrite (mac256_words_fuel (length x) 0) by lia. cbn [mac256_words]. split; [exact Hx|reflexivity].
+  - assert (Hx : 4 <= length x).
+    { destruct (Nat.lt_ge_cases (length x) 4) as [Hlt|]; [|assumption]. rewrite Nat.div_small in Hk by assumption. discriminate. }
+    set (c1 := mac256_word c (get_be32 x) 32). set (x1 := skipn 4 x).
+    assert (Hx1 : length x1 = length x - 4) by (unfold x1; apply skipn_length).
+    assert (Hk1 : length x1 / 4 = k).
+    { rewrite Hx1. replace (length x) with (1 * 4 + (length x - 4)) in Hk by lia.
+      rewrite Nat.div_add_l in Hk by lia. lia. }
+    specialize (IH c1 x1 y Hk1).
+    rewrite (mac256_words_fuel (length x) (S (length x1)) c x) by lia.
+    cbn [mac256_words]. replace (4 <=? length x) with true by (symmetry; apply Nat.leb_le; lia).
+    fold c1. fold x1.
+    destruct (mac256_words (length x1) c1 x1) as [c' rest]. destruct IH as [Hr IH]. split; [exact Hr|].
+    rewrite <- IH.
+    assert (Hs : skipn 4 (x ++ y) = x1 ++ y).
+    { unfold x1. rewrite skipn_app. replace (4 - length x) with 0 by lia. reflexivity. }
+    rewrite (mac256_words_fuel (length (x ++ y)) (S (length (x1 ++ y))) c (x ++ y)) by (rewrite !app_length; lia).
+    cbn [mac256_words].
+    replace (4 <=? length (x ++ y)) with true by (symmetry; apply Nat.leb_le; rewrite app_length; lia).
+    assert (Hg : get_be32 (x ++ y) = get_be32 x).
+    { destruct x as [|a [|b [|c0 [|d0 x']]]]; cbn in Hx; try lia. reflexivity. }
+    rewrite Hg, Hs. reflexivity.
+Qed.
+
+(* the context after absorbing x from a context with an empty buffer *)
+Definition z6_of (c0 : z256mac_ctx) (x : list N) : z256mac_ctx :=
+  let '(c', rest) := mac256_words (length x) c0 x in set_buf6 c' rest.
+
+Lemma z6_of_buf c0 x : length (z6_buf (z6_of c0 x)) < 4.
+Proof.
+  unfold z6_of. pose proof (mac256_words_prefix (length x / 4) c0 x [] eq_refl) as H.
+  destruct (mac256_words (length x) c0 x) as [c' rest]. destruct H as [H _]. exact H.
+Qed.
+
+Lemma mac256_words_set_buf6 : forall f c b d, mac256_words f (set_buf6 c b) d =
+  let '(c', r) := mac256_words f c d in (set_buf6 c' b, r).
+Proof.
+  induction f as [|f IH]; intros c b d; cbn [mac256_words]; [reflexivity|].
+  destruct (4 <=? length d); [|reflexivity]. rewrite mac256_word_buf. apply IH.
+Qed.
+
+Lemma zuc256_mac_update_of c0 x d : z6_buf c0 = [] ->
+  zuc256_mac_update (z6_of c0 x) d = z6_of c0 (x ++ d).
+Proof.
+  intros Hb0. destruct d as [|d0 d'].
+  - cbn [zuc256_mac_update]. rewrite app_nil_r. reflexivity.
+  - set (d := d0 :: d'). unfold zuc256_mac_update. fold d.
+    pose proof (mac256_words_prefix (length x / 4) c0 x d eq_refl) as H.
+    unfold z6_of. destruct (mac256_words (length x) c0 x) as [c' rest]. destruct H as [Hr H].
+    cbn [z6_buf set_buf6 z6_s z6_T z6_K0 z6_n]. rewrite H.
+    rewrite mac256_words_set_buf6.
+    destruct (mac256_words (length (rest ++ d)) c' (rest ++ d)) as [c2 r2].
+    unfold set_buf6. cbn [z6_s z6_T z6_K0 z6_n]. reflexivity.
+Qed.
+
+Lemma z6_of_nil c0 : z6_buf c0 = [] -> z6_of c0 [] = c0.
+Proof. intros H. unfold z6_of. cbn. unfold set_buf6. destruct c0. cbn in *. subst. reflexivity. Qed.
+
+Lemma zuc256_mac_updates_of c0 chunks : z6_buf c0 = [] -> forall x,
+  fold_left zuc256_mac_update chunks (z6_of c0 x) = z6_of c0 (x ++ concat chunks).
+Proof.
+  intros Hb. induction chunks as [|d r IH]; intros x; cbn [fold_left concat]; [rewrite app_nil_r; reflexivity|].
+  rewrite zuc256_mac_update_of by exact Hb. rewrite IH, app_assoc. reflexivity.
+Qed.
+
+(* ---- zuc256_mac_stream: update over any chunking then finish(tail, nbits)
+        = finish over the whole message with the whole bit length ---- *)
+Theorem zuc256_mac_stream key iv macbits chunks tail nbits :
+  zuc256_mac_finish (fold_left zuc256_mac_update chunks (zuc256_mac_init key iv macbits)) tail nbits =
+  zuc256_mac_finish (zuc256_mac_init key iv macbits) (concat chunks ++ tail) (8 * length (concat chunks) + nbits).
+Proof.
+  set (c0 := zuc256_mac_init key iv macbits).
+  assert (Hb : z6_buf c0 = []).
+  { unfold c0, zuc256_mac_init. repeat match goal with |- context [zuc_keystream ?n ?s] => destruct (zuc_keystream n s) end. reflexivity. }
+  clearbody c0. set (x := concat chunks).
+  rewrite <- (z6_of_nil c0 Hb) at 1. rewrite zuc256_mac_updates_of by exact Hb. cbn [app]. fold x.
+  unfold zuc256_mac_finish.
+  replace ((8 * length x + nbits) / 8) with (length x + nbits / 8) by lia.
+  replace ((8 * length x + nbits) mod 8) with (nbits mod 8) by lia.
+  rewrite firstn_app, skipn_app.
+  rewrite (firstn_all2 x) by lia. rewrite (skipn_all2 x) by lia.
+  replace (length x + nbits / 8 - length x) with (nbits / 8) by lia. cbn [app].
+  assert (Hu0 : forall z, zuc256_mac_update c0 z = z6_of c0 z).
+  { intros z. pose proof (zuc256_mac_update_of c0 [] z Hb) as H. rewrite (z6_of_nil c0 Hb) in H. exact H. }
+  assert (Hc : (if 8 <=? nbits then zuc256_mac_update (z6_of c0 x) (firstn (nbits / 8) tail) else z6_of c0 x) =
+               (if 8 <=? 8 * length x + nbits then zuc256_mac_update c0 (x ++ firstn (nbits / 8) tail) else c0)).
+  { destruct (8 <=? nbits) eqn:E8.
+    - apply Nat.leb_le in E8. replace (8 <=? 8 * length x + nbits) with true by (symmetry; apply Nat.leb_le; lia).
+      rewrite zuc256_mac_update_of by exact Hb. rewrite Hu0. reflexivity.
+    - apply Nat.leb_gt in E8. replace (nbits / 8) with 0 by (symmetry; apply Nat.div_small; lia).
+      rewrite firstn_O, app_nil_r.
+      destruct (8 <=? 8 * length x + nbits) eqn:E9.
+      + rewrite Hu0. reflexivity.
+      + apply Nat.leb_gt in E9. assert (length x = 0) by lia. destruct x; [apply z6_of_nil, Hb|discriminate]. }
+  rewrite Hc. reflexivity.
+Qed.
